@@ -487,6 +487,111 @@ def has_failing_constant(prog):
 
 
 # ---------------------------------------------------------------------------------------------------------------
+# series NAMED like functions.  exp/log/max/min are mapped only when CALLED; a variable, {parameter} or <error> that
+# merely carries such a name (no `(` after it) is an ordinary series.  The generators' pools never use these names,
+# so programs are renamed after generation.
+
+FUNCTION_LIKE = ['exp', 'log', 'max', 'min', 'abs', 'np', 'sqrt', 'float', 'len', 'maximum', 'log10']
+
+
+def map_terms(e, f):
+    if isinstance(e, gs.Term):
+        return f(e)
+    if isinstance(e, gs.Un):
+        return gs.Un(e.op, map_terms(e.e, f))
+    if isinstance(e, gs.Bin):
+        return gs.Bin(e.op, map_terms(e.l, f), map_terms(e.r, f))
+    if isinstance(e, gs.Call):
+        return gs.Call(e.fname, tuple(map_terms(a, f) for a in e.args))
+    if isinstance(e, gs.IfElse):
+        return gs.IfElse(map_terms(e.a, f), map_terms(e.c, f), map_terms(e.b, f))
+    return e
+
+
+def called_functions(prog):
+    out = set()
+    for st in equations(prog):
+        out.update(gs.functions_of(st.rhs))
+    return out
+
+
+def rename_series(prog, mapping):
+    f = lambda t: gs.Term(t.kind, mapping.get(t.name, t.name), t.index)  # noqa: E731
+    return gs.Program([gs.Equation(f(st.lhs), map_terms(st.rhs, f)) if isinstance(st, gs.Equation) else st
+                       for st in prog.statements])
+
+
+def with_function_names(rng, prog, k=None):
+    """Rename up to k series of the program to function-looking names that the program does not CALL (a name that is
+    both a series and a called function is outside the grammar: ParserError / SymbolError).  `np` may be a series
+    next to `np.log(...)` calls: the dotted name is a different function name.  Returns (program, names used)."""
+    called = called_functions(prog)
+    free = [n for n in FUNCTION_LIKE if n not in called]
+    names = gs.all_names(prog)
+    rng.shuffle(free)
+    k = min(len(free), len(names), k if k is not None else rng.randint(1, 3))
+    chosen = rng.sample(names, k)
+    mapping = {old: new for old, new in zip(chosen, free) if new not in names}
+    return rename_series(prog, mapping), sorted(mapping.values())
+
+
+def verbs_of(e, acc=None):
+    acc = [] if acc is None else acc
+    if isinstance(e, gs.Verb):
+        acc.append(e.text)
+    elif isinstance(e, gs.Un):
+        verbs_of(e.e, acc)
+    elif isinstance(e, gs.Bin):
+        verbs_of(e.l, acc)
+        verbs_of(e.r, acc)
+    elif isinstance(e, gs.Call):
+        for a in e.args:
+            verbs_of(a, acc)
+    elif isinstance(e, gs.IfElse):
+        verbs_of(e.a, acc)
+        verbs_of(e.c, acc)
+        verbs_of(e.b, acc)
+    return acc
+
+
+def with_inline_verbatim(rng, prog):
+    """The program with inline verbatim fragments (backticks inside an ordinary equation): number literals are
+    replaced by fragments from gen_scripts.VERBS with probability 1/2; an equation left without one gets `+ fragment`
+    or `fragment * (...)` so that every equation of the result carries at least one."""
+    def mp(e):
+        if isinstance(e, gs.Num):
+            return gs.Verb(rng.choice(gs.VERBS)) if rng.random() < 0.5 else e
+        if isinstance(e, gs.Un):
+            return gs.Un(e.op, mp(e.e))
+        if isinstance(e, gs.Bin):
+            return gs.Bin(e.op, mp(e.l), mp(e.r))
+        if isinstance(e, gs.Call):
+            return gs.Call(e.fname, tuple(mp(a) for a in e.args))
+        if isinstance(e, gs.IfElse):
+            return gs.IfElse(mp(e.a), mp(e.c), mp(e.b))
+        return e
+    out = []
+    for st in prog.statements:
+        if not isinstance(st, gs.Equation):
+            out.append(st)
+            continue
+        rhs = mp(st.rhs)
+        if not verbs_of(rhs):
+            v = gs.Verb(rng.choice(gs.VERBS))
+            rhs = gs.Bin('+', rhs, v) if rng.random() < 0.5 else gs.Bin('*', v, rhs)
+        out.append(gs.Equation(st.lhs, rhs))
+    return gs.Program(out)
+
+
+def shadowed_function_roots(prog):
+    """Series names that are also the (root of a) name of a function called in the program, e.g. the series `np`
+    next to `np.log(...)`: the normalised equation TEXT is then not evaluable as plain Python (one name, two meanings),
+    although tokens, code and evaluation are unambiguous."""
+    roots = {f.split('.')[0] for f in called_functions(prog)}
+    return roots & set(gs.all_names(prog))
+
+
+# ---------------------------------------------------------------------------------------------------------------
 # parallel observation of the real code (thorough tier)
 
 _OBSERVE = None
